@@ -173,18 +173,9 @@ package app
 //@ ghost var loadOK bool
 
 //@ spec
-//@ ghost var lastParsed []byte
-//@ ghost var lastParsedCfg *config.Config
-//@ ghost var compiledOKContent []byte
 //@ ghost var reloadOK bool
 
-//@ extern config.Parse(input) (cfg, err)
-//@   modifies lastParsed, lastParsedCfg
-//@   ensures err == nil ==> lastParsed == input && lastParsedCfg == cfg
-//@   ensures err != nil ==> lastParsed == old(lastParsed) && lastParsedCfg == old(lastParsedCfg)
-//@ extern config.Compile(cfg) (compiled, res)
-//@   modifies compiledOKContent
-//@   ensures compiledOKContent == ite(res.OK && cfg == lastParsedCfg, lastParsed, old(compiledOKContent))
+// config.Parse / config.Compile: assumed contracts in /verif/specs/config.spec
 //@ func config.Format
 //@   trusted
 //@ func config.FormatValidationText
